@@ -53,6 +53,8 @@ func fsRunSched(sc *FsScenario, prefix []int, horizon int) *vsync.Execution {
 					_ = f.job.Process(f.jobEntities(op.Ents))
 				case "jobend":
 					_ = f.job.End()
+				case "txn":
+					statuses[ti] = append(statuses[ti], f.postTxn(op))
 				default:
 					statuses[ti] = append(statuses[ti], f.post(op))
 				}
@@ -80,7 +82,8 @@ func fsRunSched(sc *FsScenario, prefix []int, horizon int) *vsync.Execution {
 	x.Outcome = final + fmt.Sprintf("|status=%v", statuses)
 	ok := false
 	for _, a := range sc.Allowed {
-		if a == final {
+		// "*": the scenario is only about termination (C05: no deadlock), every outcome is acceptable
+		if a == final || a == "*" {
 			ok = true
 		}
 	}
